@@ -1717,6 +1717,10 @@ func c19StartBeat() {
 // ---------------------------------------------------------------- driver
 
 func c19Child(ctx *runCtx, spec string) {
+	if strings.HasPrefix(spec, "destroy-join ") {
+		c19JoinChild(ctx, spec)
+		return
+	}
 	if strings.HasPrefix(spec, "destroy ") {
 		c19DestroyChild(ctx, spec)
 		return
@@ -1806,6 +1810,14 @@ func c19Run(ctx *runCtx) int {
 	}
 	for i, cfg := range []string{"N=3 R=1 P=7", "N=3 R=2 P=13", "N=2 R=2 P=7"} {
 		batches = append(batches, batch{Spec: fmt.Sprintf("destroy %s rounds=%d seed=%d", cfg, dr, ctx.seed*100+int64(i)), Timeout: 12 * time.Minute})
+	}
+	// Destroy while a hand-over to a joined member is pending (c19_join.go)
+	jr := 3
+	if ctx.tier == "thorough" {
+		jr = 12
+	}
+	for i, cfg := range []string{"N=1 R=1 P=7", "N=2 R=2 P=13", "N=2 R=1 P=23"} {
+		batches = append(batches, batch{Spec: fmt.Sprintf("destroy-join %s rounds=%d seed=%d", cfg, jr, ctx.seed*100+50+int64(i)), Timeout: 12 * time.Minute})
 	}
 	runBatches(ctx, batches, 8, func(b batch, res batchResult, tail string) {
 		// attribute the death to the case logged last
